@@ -188,7 +188,7 @@ func c20R1(c *engine.Ctx) {
 				if k.Op.String() == "==" && d == "p:b[0]" {
 					Mp = v
 				}
-				if d == "p:b[0]" || d == "p:b[0]" {
+				if d == "p:b[0]" {
 					switch k.Op.String() {
 					case ">":
 						Sp = v
